@@ -15,13 +15,17 @@ import eval_seed  # noqa: E402
 
 VERIF = eval_seed.VERIF
 LOG = "/tmp/seed/confirm.log"
+ROUND5 = "--round5" in sys.argv
+if ROUND5:
+    sys.argv.remove("--round5")
+    LOG = "/tmp/seed/confirm5.log"
 
 
 def confirmations():
     out = {}
     if os.path.exists(LOG):
         for line in open(LOG):
-            m = re.match(r"(\S+/wt_(C\d+)/_seeded/change_(\d+)) demo_with_exit=(\d+) demo_without_exit=(\d+) suite: (.*)", line)
+            m = re.match(r"(\S+/w[t5]_(C\d+)/_seeded/change_(\d+)) demo_with_exit=(\d+) demo_without_exit=(\d+) suite: (.*)", line)
             if m:
                 out[(m.group(2), int(m.group(3)))] = {"demo_exit_with_change": int(m.group(4)), "demo_exit_on_clean_tree": int(m.group(5)), "suite_with_change": m.group(6).strip()}
     return out
@@ -31,7 +35,7 @@ def main(argv):
     conf = confirmations()
     for prop in argv:
         for n in (1, 2, 3):
-            src = f"/tmp/seed/wt_{prop}/_seeded/change_{n}"
+            src = f"/tmp/seed/{'w5' if ROUND5 else 'wt'}_{prop}/_seeded/change_{n}"
             if not os.path.isdir(src):
                 continue
             c = conf.get((prop, n))
@@ -42,8 +46,9 @@ def main(argv):
             if not good:
                 print(f"{prop}/{n}: NOT KEPT — confirmation failed: {c}")
                 continue
-            ev = eval_seed.evaluate(os.path.join(src, "patch.diff"))
-            dst = os.path.join(VERIF, "seeded", f"{prop}_change{n}")
+            head_patch = os.path.join(src, "patch_head.diff")
+            ev = eval_seed.evaluate(head_patch if os.path.exists(head_patch) else os.path.join(src, "patch.diff"))
+            dst = os.path.join(VERIF, "seeded", f"{prop}_r5_change{n}" if ROUND5 else f"{prop}_change{n}")
             os.makedirs(dst, exist_ok=True)
             for f in os.listdir(src):
                 if os.path.isfile(os.path.join(src, f)) and os.path.getsize(os.path.join(src, f)) < 200_000:
@@ -56,6 +61,8 @@ def main(argv):
             meta["property"] = prop
             meta["confirmed_by_me"] = c
             meta["applies_to_repo_head"] = ev.get("applied")
+            if os.path.exists(head_patch):
+                meta["note_patch"] = "patch.diff is the change as written (against the tree of that time); patch_head.diff is the same edit rebased onto /repo HEAD after later repairs touched neighbouring lines, and is what caught_by refers to"
             meta["caught_by"] = ev.get("fired", {})
             meta["caught"] = bool(ev.get("fired"))
             json.dump(meta, open(os.path.join(dst, "meta.json"), "w"), indent=1)
